@@ -1,5 +1,7 @@
 package jen
 
+import "strings"
+
 // Reference printer (DESIGN.md §4.3): what the documentation says a list of items
 // renders to. Written from the README's description of items, separators,
 // Null/Empty and multi-line groups — it is the oracle the real renderer is
@@ -84,14 +86,70 @@ func refAllNull(nulls []bool) bool {
 
 // refComment: how a comment text is rendered.
 func refComment(c string) string {
-	if len(c) >= 2 && (c[:2] == "//" || c[:2] == "/*") {
+	if strings.HasPrefix(c, "//") || strings.HasPrefix(c, "/*") {
 		return c
 	}
-	if verifContainsNewline(c) {
-		if verifMatch(c, `.*\n`) {
+	if strings.Contains(c, "\n") {
+		if strings.HasSuffix(c, "\n") {
 			return "/*\n" + c + "*/"
 		}
 		return "/*\n" + c + "\n*/"
 	}
 	return "// " + c
+}
+
+// ---- reference import block (README: imports are sorted by path, aliased only when needed;
+// the cgo import is separate, below its preamble, when a preamble exists)
+
+type refImp struct {
+	path  string
+	name  string
+	alias bool
+}
+
+func refImpSpec(e refImp) string {
+	if e.alias && e.path != "C" {
+		return e.name + " " + specQuote(e.path)
+	}
+	return specQuote(e.path)
+}
+
+// refImportBlock: entries are all registered imports (including "C" if used),
+// in any order; preamble are the cgo preamble comments.
+func refImportBlock(entries []refImp, preamble []string) string {
+	hasC := len(preamble) > 0
+	for _, e := range entries {
+		if e.path == "C" {
+			hasC = true
+		}
+	}
+	separate := hasC && len(preamble) > 0
+	var main []refImp
+	for _, e := range entries {
+		if e.path == "C" && separate {
+			continue
+		}
+		// insertion sort by path
+		main = append(main, e)
+		for j := len(main) - 1; j > 0 && main[j].path < main[j-1].path; j-- {
+			main[j], main[j-1] = main[j-1], main[j]
+		}
+	}
+	out := ""
+	if len(main) == 1 {
+		out = "import " + refImpSpec(main[0]) + "\n\n"
+	} else if len(main) > 1 {
+		out = "import (\n"
+		for _, e := range main {
+			out += refImpSpec(e) + "\n"
+		}
+		out += ")\n\n"
+	}
+	if separate {
+		for _, c := range preamble {
+			out += refComment(c) + "\n"
+		}
+		out += "import \"C\"\n\n"
+	}
+	return out
 }
